@@ -17,6 +17,12 @@ use crate::rng;
 
 pub const VERIF_DIR: &str = "/verif";
 
+/// Where evidence and replay files go (default /verif; trials against seeded changes redirect it
+/// with SIM_OUT_DIR so that evidence of a mutated tree never lands in /verif/evidence).
+pub fn out_dir() -> String {
+    std::env::var("SIM_OUT_DIR").unwrap_or_else(|_| VERIF_DIR.to_string())
+}
+
 #[derive(Serialize, Deserialize, Default, Clone)]
 pub struct ClassAgg {
     pub count: u64,
@@ -444,7 +450,7 @@ pub fn write_replay(w: &Witness, verif_seed: u64, tried: u32, original_ops: usiz
         witness: w.clone(),
         readable: spec_sample(&w.spec, &w.post),
     };
-    let dir = format!("{VERIF_DIR}/replays");
+    let dir = format!("{}/replays", out_dir());
     let _ = std::fs::create_dir_all(&dir);
     let path = format!("{dir}/{}-{}-{:08x}.json", rf.property, verif_seed, rng::str_hash(&rf.class) as u32);
     std::fs::write(&path, serde_json::to_string_pretty(&rf).unwrap()).expect("write replay file");
@@ -635,7 +641,7 @@ pub fn check(prop: &str, thorough: bool, verif_seed: u64, jobs: u64) -> i32 {
         "wall_s": wall,
         "violations": violations
     });
-    let evdir = format!("{VERIF_DIR}/evidence");
+    let evdir = format!("{}/evidence", out_dir());
     let _ = std::fs::create_dir_all(&evdir);
     let mut f = std::fs::File::create(format!("{evdir}/{prop}.json")).expect("evidence file");
     f.write_all(serde_json::to_string_pretty(&ev).unwrap().as_bytes()).expect("write evidence");
